@@ -105,14 +105,14 @@ def flushSkips (tape : Array UInt64) (off n : Nat) : (k : Nat) → Res (Array UI
 def rebStep (values : Bytes) (s : RebState) (t : UInt8) : Res RebState := do
   if s.off == s.tape.size then .error .generic else
   let tagDst : UInt64 := t.toUInt64 <<< 56
-  let sw := caseOf swDeserialize
+  let sw := caseOfSw swDeserialize 1      -- the reconstruction switch (switch 0 is the two-entry guard)
   -- flush owed skips
   let s ← (if s.nSkips > 0 ∧ !(inCase (sw 0) t) then
       if s.nSkips ≥ s.tape.size - s.off then .error .generic else do
       let (tp, off) ← flushSkips s.tape s.off s.nSkips s.nSkips
       .ok { s with tape := tp, off := off, nSkips := 0 }
     else .ok s)
-  let two := inCase (sw 1) t ∨ inCase (sw 2) t ∨ inCase (sw 3) t
+  let two := inCase (caseOfSw swDeserialize 0 0) t
   if two ∧ s.off + 1 ≥ s.tape.size then .error .generic else
   let left := values.size - s.vpos
   if inCase (sw 0) t then .ok { s with nSkips := s.nSkips + 1 }
